@@ -1,5 +1,5 @@
 #!/venv/bin/python
-"""mkdiff.py -- writes C15_d_moon_phase_<target>.v (target = new, full): the difference of consecutive results of
+"""mkdiff.py -- writes C15_d_moon_phase_<target>.v (4 targets): the difference of consecutive results of
 Moon.moon_phase, bounded term by term:  |c E'^p sin(th') - c E^p sin(th)| <= |c| Emax^p 2|sin((th'-th)/2)| + |c| eps_p,
 th' - th known from the per-lunation advance of M, M', F, Omega.  Uses the definitions of C15_p_moon_phase_<target>.v
 (written by mkphase.py).  Run once by the author; the output is checked in."""
@@ -241,20 +241,34 @@ def emit(src, fnode, target):
         w("  pose proof (abs_le_inv _ _ (term_%d %s %s)) as T%d. revert T%d. lit. intro T%d." % (i, args, hy, i, i, i))
     w("  unfold corr_step_bound. lit. apply abs_le. split; lra.")
     w("Qed.")
+    # (e) the W correction of the quarters (0 for new / full): constant + small cosine terms, amplitude only
+    wname = g.env["w"][1]
+    nw = g.ver["w"]
+    w0 = {"new": 0, "full": 0, "first": 306, "last": -306}[target]
+    w("Lemma w_amp k : win k -> Rabs (P.%s k - %s) <= 1 / 1000." % (wname, mk.rlit(w0, -5)))
+    w("Proof.")
+    w("  intro W. pose proof (E_bounds k W) as HE. unfold %s." % ", ".join("P.v_w_%d" % i for i in range(nw, 0, -1)))
+    w("  generalize dependent (P.v_E_1 k). intros E0 HE.")
+    for r_ in ("Mr", "Mprimer", "Fr", "Omegar"): w("  generalize (P.v_%s_1 k); intro." % r_)
+    w("  unfold %s. lit. apply abs_le. split; interval." % ", ".join("P.f_w_%d" % i for i in range(nw, 0, -1)))
+    w("Qed.")
     # (f) the step of the result
-    w("(* consecutive results (index k and k+1, both in the window): one synodic month 29.530588861 d within 0.33 d,")
-    w("   i.e. between 29.2 and 29.9 days *)")
-    w("Theorem step k : win k -> win (k + 1) -> Rabs (P.v_jde_2 (k + 1) - P.v_jde_2 k - P.B) <= 33 / 100.")
+    tot = {"new": ("33 / 100", "292 / 10", "299 / 10"), "full": ("33 / 100", "292 / 10", "299 / 10"),
+           "first": ("42 / 100", "291 / 10", "300 / 10"), "last": ("42 / 100", "291 / 10", "300 / 10")}[target]
+    w("(* consecutive results (index k and k+1, both in the window): one synodic month 29.530588861 d within %s d *)" % tot[0])
+    w("Theorem step k : win k -> win (k + 1) -> Rabs (P.v_jde_2 (k + 1) - P.v_jde_2 k - P.B) <= %s." % tot[0])
     w("Proof.")
     w("  intros W0 W1.")
     w("  pose proof (abs_le_inv _ _ (corr_step k W0 W1)) as HC. pose proof (abs_le_inv _ _ (Q_step k W0)) as HQ.")
     w("  pose proof (abs_le_inv _ _ (corr2_amp k)) as H20. pose proof (abs_le_inv _ _ (corr2_amp (k + 1))) as H21.")
+    w("  pose proof (abs_le_inv _ _ (w_amp k W0)) as HW0. pose proof (abs_le_inv _ _ (w_amp (k + 1) W1)) as HW1.")
     w("  assert (HS : P.v_jde_2 (k + 1) - P.v_jde_2 k - P.B = (P.f_Q (P.v_t_1 (k + 1)) - P.f_Q (P.v_t_1 k))")
-    w("               + (P.v_corr_2 (k + 1) - P.v_corr_2 k) + (P.v_corr2_1 (k + 1) - P.v_corr2_1 k)).")
-    w("  { unfold P.v_jde_2, P.f_jde_2, P.v_jde_1, P.f_jde_1, P.v_w_1, P.f_w_1, P.f_Q, P.B. lit. ring. }")
-    w("  rewrite HS. unfold corr_step_bound in HC. revert HC. lit. intro HC. apply abs_le. split; lra.")
+    w("               + (P.v_corr_2 (k + 1) - P.v_corr_2 k) + (P.v_corr2_1 (k + 1) - P.v_corr2_1 k)")
+    w("               + (P.%s (k + 1) - P.%s k))." % (wname, wname))
+    w("  { unfold P.v_jde_2, P.f_jde_2, P.v_jde_1, P.f_jde_1, P.f_Q, P.B. lit. ring. }")
+    w("  rewrite HS. unfold corr_step_bound in HC. revert HC HW0 HW1. lit. intros HC HW0 HW1. apply abs_le. split; lra.")
     w("Qed.")
-    w("Theorem step_days k : win k -> win (k + 1) -> 292 / 10 <= P.v_jde_2 (k + 1) - P.v_jde_2 k <= 299 / 10.")
+    w("Theorem step_days k : win k -> win (k + 1) -> %s <= P.v_jde_2 (k + 1) - P.v_jde_2 k <= %s." % (tot[1], tot[2]))
     w("Proof.")
     w("  intros W0 W1. pose proof (abs_le_inv _ _ (step k W0 W1)) as H. unfold P.B in H. revert H. lit. intro H. lra.")
     w("Qed.")
@@ -268,5 +282,5 @@ if __name__ == "__main__":
     tree = ast.parse(src)
     cls = [n for n in tree.body if isinstance(n, ast.ClassDef) and n.name == "Moon"][0]
     fnode = [n for n in cls.body if isinstance(n, ast.FunctionDef) and n.name == "moon_phase"][0]
-    for t in ("new", "full"):
+    for t in ("new", "full", "first", "last"):
         print(emit(src, fnode, t))
